@@ -2,6 +2,9 @@
 #![allow(dead_code, unused_imports)]
 mod evidence;
 mod known;
+mod model;
+mod ops;
+mod world;
 mod panics;
 mod props;
 mod runner;
